@@ -36,7 +36,6 @@ ACTIVE_EXCLUSIONS = {
     'C13-clone-loses-defaults',
     'C13-document-replaceChild-self',
     'C13-setNamedItemNS-breaks-sort-order',
-    'C14-removeAttributeNS-keeps-id',
 }
 _no = os.environ.get('VERIF_C13_NOEXCL', '')
 if _no == 'all': ACTIVE_EXCLUSIONS = set()
